@@ -31,6 +31,9 @@ KF_RETRY = "epr-retry:nv-relocation-inside-retry-loop"
 KF_GIVE_UP = "epr-retry:last-attempt-cleaned-up-handles-stay-active"
 
 
+_FORGOTTEN = set()
+
+
 def gen_history(rng, budget, hw):
     limit = budget - 1 if hw == "nv" else budget
     ops = []
@@ -70,6 +73,13 @@ def gen_history(rng, budget, hw):
             ops.append({"op": "free", "q": q})
         elif r < 0.69 and live:
             ops.append({"op": "reset", "q": rng.choice(live)})
+        elif r < 0.71 and live and hw == "generic":
+            # the host drops its last reference to a live handle (a helper that prepares a qubit and returns nothing, a name
+            # that is re-bound): the qubit stays allocated and its ID stays taken until the connection closes
+            q = rng.choice(live)
+            live.remove(q)
+            limit -= 1
+            ops.append({"op": "forget", "q": q})
         elif r < 0.80 and free_slots >= 1:
             n = rng.randrange(1, free_slots + 1)
             names = []
@@ -266,6 +276,7 @@ def run_case(ctx, case):
         app = conn.app_id
         ctx.count("histories_after_an_earlier_program")
     handles = {}
+    _FORGOTTEN.clear()
     leaky = []            # handles created by sequential / context requests (known to stay active)
     given_up = []         # handles of a request whose every attempt missed the fidelity bound
     released_ids = set()
@@ -307,6 +318,12 @@ def run_case(ctx, case):
                     handles[o["q"]].free()
                 elif k == "reset":
                     handles[o["q"]].reset()
+                elif k == "forget":
+                    import gc
+                    _FORGOTTEN.add(handles[o["q"]].qubit_id)
+                    del handles[o["q"]]
+                    gc.collect()
+                    ctx.count("live_handles_dropped_by_the_host")
                 elif k == "dead":
                     from netqasm.sdk.qubit import QubitNotActiveError
                     h = handles[o["q"]]
@@ -436,6 +453,8 @@ def _compare(ctx, case, conn, ex, app, leaky, FutureQubit, handles, had_leaky_re
     ctrl = {v for v, p in enumerate(um) if p is not None}
     active = list(conn.active_qubits)
     mine = {id(h) for h in handles.values()}
+    # (handles the host dropped while their qubit was live still belong to the application: known by their id)
+    mine |= {id(q) for q in active if not isinstance(q, FutureQubit) and q.qubit_id in _FORGOTTEN}
     # handles the application does not own: FutureQubit placeholders, the handles a sequential request returned after its
     # post routine consumed the qubits, and the SDK-internal per-pair handles of a context request
     placeholders = [q for q in active if isinstance(q, FutureQubit) or id(q) not in mine]
